@@ -80,7 +80,9 @@ func c10Job(raw json.RawMessage) (any, error) {
 			return
 		}
 		out.Viols = append(out.Viols, explore.Violation{Property: "C10", Clause: clause, Class: class, Config: "interceptors=" + it.IC, History: []string{"pattern " + it.Pattern}, Probe: label, Observed: obs, Expected: exp,
-			Replay: explore.ItemReplay("c10/pattern", c10Item{IC: it.IC, Pattern: it.Pattern, Only: label})})
+			// the replay recipe is the whole work item (all URL calls for this pattern, in order): what an earlier call
+			// leaves behind in process-wide state is part of how a later one fails
+			Replay: explore.ItemReplay("c10/pattern", c10Item{IC: it.IC, Pattern: it.Pattern})})
 	}
 	res := func(s string, err error, pv any, bad bool) string {
 		if bad {
